@@ -16,6 +16,9 @@ type cell struct {
 	gen uint64
 	id  int
 	vc  []uint32
+	// spin detection: consecutive loads of this variable by the same task
+	loadTask   int
+	loadStreak int
 }
 
 // Ops counts atomic operations inside runs (probe).
@@ -32,6 +35,17 @@ func (c *cell) op(addr uintptr, write bool) {
 		c.vc = make([]uint32, s.NumTasks())
 	}
 	Ops++
+	if me := s.CurTask(); !write && c.loadTask == me.ID+1 {
+		c.loadStreak++
+		if c.loadStreak >= 2 {
+			// polling a flag: tell the unfair strategies not to starve whoever will set it
+			s.YieldHint()
+		}
+	} else if !write {
+		c.loadTask, c.loadStreak = me.ID+1, 0
+	} else {
+		c.loadTask, c.loadStreak = 0, 0
+	}
 	s.Yield(sched.KAtomic, c.id)
 	if s.Aborted() {
 		return
@@ -73,7 +87,7 @@ type Int32 struct {
 	v int32
 }
 
-func (x *Int32) Load() int32           { x.c.op(0, true); return x.v }
+func (x *Int32) Load() int32           { x.c.op(0, false); return x.v }
 func (x *Int32) Store(v int32)         { x.c.op(0, true); x.v = v }
 func (x *Int32) Swap(v int32) int32    { x.c.op(0, true); o := x.v; x.v = v; return o }
 func (x *Int32) Add(d int32) int32     { x.c.op(0, true); x.v += d; return x.v }
@@ -92,7 +106,7 @@ type Int64 struct {
 	v int64
 }
 
-func (x *Int64) Load() int64           { x.c.op(0, true); return x.v }
+func (x *Int64) Load() int64           { x.c.op(0, false); return x.v }
 func (x *Int64) Store(v int64)         { x.c.op(0, true); x.v = v }
 func (x *Int64) Swap(v int64) int64    { x.c.op(0, true); o := x.v; x.v = v; return o }
 func (x *Int64) Add(d int64) int64     { x.c.op(0, true); x.v += d; return x.v }
@@ -111,7 +125,7 @@ type Uint32 struct {
 	v uint32
 }
 
-func (x *Uint32) Load() uint32          { x.c.op(0, true); return x.v }
+func (x *Uint32) Load() uint32          { x.c.op(0, false); return x.v }
 func (x *Uint32) Store(v uint32)        { x.c.op(0, true); x.v = v }
 func (x *Uint32) Swap(v uint32) uint32  { x.c.op(0, true); o := x.v; x.v = v; return o }
 func (x *Uint32) Add(d uint32) uint32   { x.c.op(0, true); x.v += d; return x.v }
@@ -130,7 +144,7 @@ type Uint64 struct {
 	v uint64
 }
 
-func (x *Uint64) Load() uint64          { x.c.op(0, true); return x.v }
+func (x *Uint64) Load() uint64          { x.c.op(0, false); return x.v }
 func (x *Uint64) Store(v uint64)        { x.c.op(0, true); x.v = v }
 func (x *Uint64) Swap(v uint64) uint64  { x.c.op(0, true); o := x.v; x.v = v; return o }
 func (x *Uint64) Add(d uint64) uint64   { x.c.op(0, true); x.v += d; return x.v }
@@ -149,7 +163,7 @@ type Uintptr struct {
 	v uintptr
 }
 
-func (x *Uintptr) Load() uintptr           { x.c.op(0, true); return x.v }
+func (x *Uintptr) Load() uintptr           { x.c.op(0, false); return x.v }
 func (x *Uintptr) Store(v uintptr)         { x.c.op(0, true); x.v = v }
 func (x *Uintptr) Swap(v uintptr) uintptr  { x.c.op(0, true); o := x.v; x.v = v; return o }
 func (x *Uintptr) Add(d uintptr) uintptr   { x.c.op(0, true); x.v += d; return x.v }
@@ -168,7 +182,7 @@ type Bool struct {
 	v bool
 }
 
-func (x *Bool) Load() bool         { x.c.op(0, true); return x.v }
+func (x *Bool) Load() bool         { x.c.op(0, false); return x.v }
 func (x *Bool) Store(v bool)       { x.c.op(0, true); x.v = v }
 func (x *Bool) Swap(v bool) bool   { x.c.op(0, true); o := x.v; x.v = v; return o }
 func (x *Bool) CompareAndSwap(o, n bool) bool {
@@ -186,7 +200,7 @@ type Pointer[T any] struct {
 	v *T
 }
 
-func (x *Pointer[T]) Load() *T         { x.c.op(0, true); return x.v }
+func (x *Pointer[T]) Load() *T         { x.c.op(0, false); return x.v }
 func (x *Pointer[T]) Store(v *T)       { x.c.op(0, true); x.v = v }
 func (x *Pointer[T]) Swap(v *T) *T     { x.c.op(0, true); o := x.v; x.v = v; return o }
 func (x *Pointer[T]) CompareAndSwap(o, n *T) bool {
